@@ -231,4 +231,202 @@ theorem parseTokens_names {ts : List Token} {σ : Schema} (ht : TsOk PIdent ts)
 theorem parse_names {t : List Char} {σ : Schema} (h : parse t = .ok σ) : NamesOk σ :=
   parseTokens_names (lex_tsOk t) h
 
+
+/-! ### the grammar phase leaves no field without a type (since commit a64277c) -/
+
+theorem typeOfTok_nonempty {t : Tok} {b : BaseType} (h : typeOfTok t = some b)
+    (hid : ∀ n, t = .ident n → IsIdentName n) : b.isEmpty = false := by
+  unfold typeOfTok at h
+  split at h <;> simp at h <;> subst h
+  · rename_i n
+    obtain ⟨c, r, rfl, _⟩ := hid n rfl
+    simp [BaseType.isEmpty]
+  all_goals simp [BaseType.isEmpty]
+
+theorem parseFieldType_nonempty {ts ts' : List Token} {ty : FType} (ht : TsOk PIdent ts)
+    (h : parseFieldType ts = .ok ty ts') : ty.inner.isEmpty = false := by
+  unfold parseFieldType at h
+  simp only at h
+  have hr : (if (cur ts).tok = .punct '[' then eat (.punct ']') (adv ts) else PR.ok () ts).Good PIdent := by
+    split
+    · exact eat_good _ (adv_ok ht)
+    · exact ht
+  split at h
+  · cases h
+  · rename_i u ts1 h1
+    have k1 := hr.ok_of h1
+    split at h
+    · split at h <;> cases h
+    · rename_i ft hft
+      have hne := typeOfTok_nonempty hft (cur_P k1)
+      split at h
+      · split at h
+        · cases h
+        · split at h
+          · cases h
+          · split at h <;> cases h <;> simpa [FType.inner, BaseType.isEmpty] using hne
+      · split at h <;> cases h <;> simpa [FType.inner] using hne
+
+theorem parseMultimapField_nonempty {ts ts' : List Token} {ty : FType} (ht : TsOk PIdent ts)
+    (h : parseMultimapField ts = .ok ty ts') : ty.inner.isEmpty = false := by
+  unfold parseMultimapField at h
+  split at h
+  · cases h
+  · rename_i ty0 ts0 h0
+    have hne := parseFieldType_nonempty ht h0
+    split at h
+    · split at h
+      · cases h
+      · cases h
+        cases ty0 <;> simpa [FType.setDict, FType.inner, BaseType.isEmpty] using hne
+    · cases h; exact hne
+
+theorem parseStructFields_nonempty : ∀ (f : Nat) (fs : List Field) (ts : List Token)
+    (fs' : List Field) (ts' : List Token), TsOk PIdent ts → parseStructFields f fs ts = .ok fs' ts' →
+    (∀ x ∈ fs, x.ty.inner.isEmpty = false) → ∀ x ∈ fs', x.ty.inner.isEmpty = false
+  | 0, fs, ts, fs', ts', _, h, _ => by simp [parseStructFields] at h
+  | f + 1, fs, ts, fs', ts', ht, h, hr => by
+    unfold parseStructFields at h
+    split at h
+    · split at h
+      · cases h
+      · split at h
+        · cases h
+        · rename_i ty ts1 hty
+          simp only at h
+          have k1 := (parseFieldType_good (adv_ok ht)).ok_of hty
+          refine parseStructFields_nonempty f _ _ _ _ (skipOptionals_ok _ _ k1) h ?_
+          intro x hx
+          simp only [List.mem_append, List.mem_singleton] at hx
+          rcases hx with hx | hx
+          · exact hr x hx
+          · subst hx; exact parseFieldType_nonempty (adv_ok ht) hty
+    · cases h; exact hr
+
+theorem noEmpty_addStruct {σ : Schema} (h : σ.NoEmptyType) (s : Struct)
+    (hs : ∀ ty ∈ s.types, ty.inner.isEmpty = false) :
+    Schema.NoEmptyType { σ with structs := σ.structs ++ [s] } := by
+  intro ty hty
+  rw [mem_allTypes] at hty
+  rcases hty with ⟨x, hx, hty⟩ | ⟨m, hm, hty⟩
+  · simp only [List.mem_append, List.mem_singleton] at hx
+    rcases hx with hx | hx
+    · exact h ty (mem_allTypes.2 (Or.inl ⟨x, hx, hty⟩))
+    · subst hx; exact hs ty hty
+  · exact h ty (mem_allTypes.2 (Or.inr ⟨m, hm, hty⟩))
+
+theorem noEmpty_addMultimap {σ : Schema} (h : σ.NoEmptyType) (m : Multimap)
+    (hs : ∀ ty ∈ m.types, ty.inner.isEmpty = false) :
+    Schema.NoEmptyType { σ with multimaps := σ.multimaps ++ [m] } := by
+  intro ty hty
+  rw [mem_allTypes] at hty
+  rcases hty with ⟨x, hx, hty⟩ | ⟨x, hx, hty⟩
+  · exact h ty (mem_allTypes.2 (Or.inl ⟨x, hx, hty⟩))
+  · simp only [List.mem_append, List.mem_singleton] at hx
+    rcases hx with hx | hx
+    · exact h ty (mem_allTypes.2 (Or.inr ⟨x, hx, hty⟩))
+    · subst hx; exact hs ty hty
+
+theorem parseStruct_noEmpty {σ σ' : Schema} {ts ts' : List Token} {o : Bool} (ht : TsOk PIdent ts)
+    (hg : σ.NoEmptyType) (h : parseStruct o σ ts = .ok σ' ts') : σ'.NoEmptyType := by
+  have hP := parseStruct_good (P := PIdent) o σ ht
+  unfold parseStruct at h
+  simp only at h
+  repeat' (split at h)
+  all_goals first
+    | (cases h; done)
+    | skip
+  rename_i _ sname _ hfresh mods dict isRoot ts1 hmods _ _ ts2 heat _ fs _ hfs hroot _ _ _ _
+  cases h
+  -- the token stream at the point where the fields are parsed is still fine
+  have k1 : TsOk PIdent ts1 := by
+    have haa := adv_ok (adv_ok ht)
+    split at hmods
+    · split at hmods
+      · cases hmods
+      · have hd := parseDictModifier_good haa
+        split at hmods
+        · cases hmods
+        · rename_i d ts3 h3
+          cases hmods
+          exact hd.ok_of h3
+    · split at hmods
+      · cases hmods
+      · cases hmods; exact adv_ok haa
+    · cases hmods; exact haa
+  have k2 : TsOk PIdent ts2 := (eat_good _ k1).ok_of heat
+  refine noEmpty_addStruct hg _ ?_
+  intro ty hty
+  simp only [Struct.types, List.mem_map] at hty
+  obtain ⟨x, hx, rfl⟩ := hty
+  exact parseStructFields_nonempty _ _ _ _ _ k2 hfs (by simp) x hx
+
+theorem parseMultimap_noEmpty {σ σ' : Schema} {ts ts' : List Token} (ht : TsOk PIdent ts)
+    (hg : σ.NoEmptyType) (h : parseMultimap σ ts = .ok σ' ts') : σ'.NoEmptyType := by
+  unfold parseMultimap at h
+  simp only at h
+  repeat' (split at h)
+  all_goals first
+    | (cases h; done)
+    | skip
+  rename_i _ mname _ hfresh _ _ ts1 h1 _ _ ts2 h2 _ kt ts3 hk _ _ ts4 h4 _ vt _ hv _ _ _ _
+  cases h
+  have k1 : TsOk PIdent ts1 := (eat_good _ (adv_ok (adv_ok ht))).ok_of h1
+  have k2 : TsOk PIdent ts2 := (eat_good _ k1).ok_of h2
+  have k3 : TsOk PIdent ts3 := (parseMultimapField_good k2).ok_of hk
+  have k4 : TsOk PIdent ts4 := (eat_good _ k3).ok_of h4
+  refine noEmpty_addMultimap hg _ ?_
+  intro ty hty
+  simp only [Multimap.types, List.mem_cons, List.mem_nil_iff, or_false] at hty
+  rcases hty with rfl | rfl
+  · exact parseMultimapField_nonempty k2 hk
+  · exact parseMultimapField_nonempty k4 hv
+
+theorem parseEnum_noEmpty {σ σ' : Schema} {ts ts' : List Token}
+    (hg : σ.NoEmptyType) (h : parseEnum σ ts = .ok σ' ts') : σ'.NoEmptyType := by
+  unfold parseEnum at h
+  simp only at h
+  repeat' (split at h)
+  all_goals first
+    | (cases h; done)
+    | skip
+  cases h
+  intro ty hty
+  rw [mem_allTypes] at hty
+  exact hg ty (mem_allTypes.2 hty)
+
+theorem parseDefs_noEmpty : ∀ (f : Nat) (σ σ' : Schema) (ts ts' : List Token), TsOk PIdent ts →
+    σ.NoEmptyType → parseDefs f σ ts = .ok σ' ts' → σ'.NoEmptyType
+  | 0, σ, σ', ts, ts', _, _, h => by simp [parseDefs] at h
+  | f + 1, σ, σ', ts, ts', ht, hg, h => by
+    unfold parseDefs at h
+    simp only at h
+    split at h
+    · cases h
+    · rename_i σ1 ts1 h1
+      have hboth : σ1.NoEmptyType ∧ TsOk PIdent ts1 := by
+        split at h1
+        · exact ⟨parseStruct_noEmpty ht hg h1, (parseStruct_good _ _ ht).ok_of h1⟩
+        · exact ⟨parseStruct_noEmpty ht hg h1, (parseStruct_good _ _ ht).ok_of h1⟩
+        · exact ⟨parseMultimap_noEmpty ht hg h1, (parseMultimap_good _ ht).ok_of h1⟩
+        · exact ⟨parseEnum_noEmpty hg h1, (parseEnum_good _ ht).ok_of h1⟩
+        · cases h1
+      split at h
+      · cases h; exact hboth.1
+      · exact parseDefs_noEmpty f _ _ _ _ hboth.2 hboth.1 h
+
+/-- every field, key and value the grammar phase accepts has a type. -/
+theorem grammar_noEmpty {σ : Schema} {ts ts' : List Token} (ht : TsOk PIdent ts)
+    (h : grammar ts = .ok σ ts') : σ.NoEmptyType := by
+  unfold grammar at h
+  have hp := parsePackage_good ht
+  split at h
+  · cases h
+  · rename_i pkg ts1 h1
+    exact parseDefs_noEmpty _ _ _ _ _ (hp.ok_of h1) (by intro ty hty; simp [Schema.allTypes] at hty) h
+
+/-- `idl.Parse` never panics (and the model's traversal fuel is never exhausted). -/
+theorem parse_never_panics (t : List Char) (site : PanicSite) : parse t ≠ .panic site :=
+  parseTokens_no_panic (fun _ _ hg => grammar_noEmpty (lex_tsOk t) hg) site
+
 end Stef.Idl
